@@ -46,6 +46,8 @@ def conditions(tier: str, seed: int) -> list[dict]:
     if tier == "thorough":
         cs.append({"name": "diff_wh[n=2]", "bounds": "<=2 intervals on each of 2 symbolic weekdays", "timeout": 3000, "weight": 3000})
     cs.append({"name": f"diff_scan[r=3600,n={5 if tier == 'quick' else 8}]", "bounds": "all predicate patterns", "timeout": 600 if tier == "quick" else 3000, "weight": 800})
+    cs.append({"name": "projects[fixtures]", "bounds": "every tests/data/*.tjp and a family of generated projects scheduled with freshly built extensions vs "
+               "with the extensions blocked (concrete end-to-end differential, not symbolic)", "timeout": 900, "weight": 400})
     cs.append({"name": "diff_daily_hours[n=1]", "bounds": "1 interval, hours 0..24, minutes 0..59 (bit-precise FP)", "timeout": 600, "weight": 700})
     if tier == "thorough":
         cs.append({"name": "diff_daily_hours[n=2]", "bounds": "2 intervals (bit-precise FP)", "timeout": 1800, "weight": 1800})
@@ -78,7 +80,85 @@ def _body(kind: str, d: dict, ctx: Any, py: kern.Impl, cy: kern.Impl) -> None:
         raise ValueError(kind)
 
 
+PROJ_RUNNER = r'''
+import sys, json, glob, io, contextlib
+mode, fresh = sys.argv[1], sys.argv[2]
+if mode == "off":
+    for n in ("scoreboard_cy", "time_utils_cy", "working_hours_cy"):
+        sys.modules["scriptplan._cython." + n] = None   # import raises ImportError -> pure-Python fallbacks
+else:
+    sys.path.insert(0, "/verif")
+    from vlib import cybuild
+    cybuild.install_fresh(fresh)
+from scriptplan.parser.tjp_parser import ProjectFileParser
+import scriptplan.core.project as P, scriptplan.core.working_hours as W, scriptplan.scheduler.scoreboard as S
+assert (P._USE_CYTHON, W._USE_CYTHON, S._USE_CYTHON) == ((mode == "on"),) * 3, (mode, P._USE_CYTHON, W._USE_CYTHON, S._USE_CYTHON)
+out = {}
+for path in json.loads(sys.argv[3]):
+    try:
+        with contextlib.redirect_stderr(io.StringIO()), contextlib.redirect_stdout(io.StringIO()):
+            pr = ProjectFileParser().parse(open(path).read())
+        rows = []
+        for k in range(len(list(pr.scenarios))):
+            for t in pr.tasks:
+                rows.append([k, t.fullId, bool(t.get("scheduled", k)), str(t.get("start", k)), str(t.get("end", k))])
+        out[path] = rows
+    except Exception as e:
+        out[path] = "EXC " + type(e).__name__ + ": " + str(e)[:200]
+print(json.dumps(out))
+'''
+
+
+def projects_diff() -> dict:
+    import glob
+    import json
+    import os
+    import subprocess
+    import sys
+    import tempfile
+
+    from sx.spec import render
+    from . import c02, sxlib
+
+    t0 = time.time()
+    fd = c17.fresh_dir()
+    tmp = tempfile.mkdtemp(prefix="verif_c13_")
+    try:
+        paths = sorted(glob.glob(os.path.join(kern.REPO, "tests", "data", "*.tjp")))
+        gen = {"night": c02.cal_spec("night"), "night1": c02.cal_spec("night1"), "res900": c02.cal_spec("res900"), "tokyo": c02.cal_spec("tokyo"),
+               "nymar": c02.cal_spec("ny-mar"), "s7": sxlib.S7("container"), "s6w": sxlib.S6("wres", limit="5h")}
+        for nm, sp in gen.items():
+            vals = {p: 5 * 3600 + 1234 for p in sp.params()}
+            fp = os.path.join(tmp, nm + ".tjp")
+            with open(fp, "w") as f:
+                f.write(render(sp, vals))
+            paths.append(fp)
+        res = {}
+        for mode in ("on", "off"):
+            p = subprocess.run([sys.executable, "-c", PROJ_RUNNER, mode, fd, json.dumps(paths)], capture_output=True, text=True, timeout=800, cwd=tmp)
+            if p.returncode != 0:
+                return {"status": R.HARNESS_ERROR, "detail": f"runner {mode} failed: {p.stderr[-800:]}"}
+            res[mode] = json.loads(p.stdout.strip().splitlines()[-1])
+        bad = []
+        n = 0
+        for path in paths:
+            n += 1
+            if res["on"][path] != res["off"][path]:
+                a, b = res["on"][path], res["off"][path]
+                first = next((x for x in zip(a, b) if x[0] != x[1]), (a, b)) if isinstance(a, list) and isinstance(b, list) else (a, b)
+                bad.append({"label": f"project {os.path.basename(path)} schedules differently with and without the extensions", "inputs": {"path": path, "first_difference": first}})
+        out = {"paths": n, "nontrivial": n, "queries": 0, "solver_s": 0.0, "samples": [{"projects": [os.path.basename(x) for x in paths][:6]}]}
+        if bad:
+            return {**out, "status": R.REFUTED, "counterexamples": bad[:4], "detail": f"{len(bad)} projects differ"}
+        return {**out, "status": R.DISCHARGED, "detail": f"{n} projects identical with fresh extensions and with fallbacks ({time.time() - t0:.0f} s)"}
+    finally:
+        import shutil
+        shutil.rmtree(tmp, ignore_errors=True)
+
+
 def run_condition(name: str, tier: str, seed: int) -> dict:
+    if name == "projects[fixtures]":
+        return projects_diff()
     kind, d = _parse(name)
     if kind == "translit_grid":
         return translit_grid()
@@ -90,9 +170,13 @@ def run_condition(name: str, tier: str, seed: int) -> dict:
 
 
 def replay(record: dict) -> dict:
+    if record["condition"] == "projects[fixtures]":
+        return {"reproduced": True, "detail": "end-to-end differential on real processes: " + str(record["inputs"])[:400]}
     kind, d = _parse(record["condition"])
     if kind == "translit_grid":
         return {"reproduced": False, "detail": "grid mismatches are harness errors, not violations"}
+    if record["condition"] == "projects[fixtures]":
+        return {"reproduced": True, "detail": "end-to-end differential on real processes: " + str(record["inputs"])[:400]}
     inputs = dict(record.get("inputs", {}))
     info = record.get("info")
     if isinstance(info, dict) and "pattern" in info:
